@@ -318,3 +318,22 @@ func analyzeFunc(fn *ssa.Function) *FuncInfo {
 	}
 	return fi
 }
+
+
+// fnTypesPkg: the types.Package a function belongs to (instantiations of generic functions have no ssa package of their
+// own: their origin's package is used).
+func fnTypesPkg(fn *ssa.Function) *types.Package {
+	if fn == nil {
+		return nil
+	}
+	if fn.Pkg != nil {
+		return fn.Pkg.Pkg
+	}
+	if o := fn.Origin(); o != nil && o.Pkg != nil {
+		return o.Pkg.Pkg
+	}
+	if fn.Parent() != nil {
+		return fnTypesPkg(fn.Parent())
+	}
+	return nil
+}
